@@ -552,6 +552,15 @@ SPECIAL = {
                                  {'load2': (('load2', 'a'), {'path': 'a'}), 'load_lru': (('load2', 'b'), {'path': 'b'})}),
     'lru_wrapper_then_wrapped': ("import c19tool.c19tool as t\nt.load_lru.path = 'b'\nt.load2.path = 'a'\n",
                                  {'load2': (('load2', 'a'), {'path': 'a'}), 'load_lru': (('load2', 'b'), {'path': 'b'})}),
+    # the same alias bound to two sibling modules by two files (each file resolves through its OWN imports)
+    'alias_reused_for_sibling_two_parses': (["import c19tool.helpers as x\nx.fn.a = 1\n", "import c19tool.c19tool as x\nx.fn.a = 2\n"],
+                                            {'helpers.fn': (('helpers.fn', 1), {'a': 1}), 'mod.fn': (('mod.fn', 2), {'a': 2})}),
+    'from_alias_reused_for_sibling_two_parses': (["from c19tool import helpers as h\nh.fn.a = 1\n",
+                                                  "from c19tool import c19tool as h\nh.fn.a = 2\n"],
+                                                 {'helpers.fn': (('helpers.fn', 1), {'a': 1}), 'mod.fn': (('mod.fn', 2), {'a': 2})}),
+    'alias_equal_to_sibling_module_name': (["import c19tool.helpers as c19tool\nc19tool.fn.a = 1\n",
+                                            "import c19tool.c19tool\nc19tool.c19tool.fn.a = 2\n"],
+                                           {'helpers.fn': (('helpers.fn', 1), {'a': 1}), 'mod.fn': (('mod.fn', 2), {'a': 2})}),
 }
 
 
@@ -580,11 +589,17 @@ def run_special(case, res):
   harness.hard_reset()
   MEM.clear()
   res.case(tuple(case), True)
+  texts = text if isinstance(text, list) else [text]
   try:
-    gin.parse_config(HEAD + text)
+    for t in texts:
+      gin.parse_config(HEAD + t)
     got = special_observe()
   except Exception as e:  # pylint: disable=broad-except
-    res.violation('special:' + name, '%r: config\n%s\nraised %r' % (case, text, e), list(case))
+    if len(texts) > 1 and isinstance(e, ValueError) and 'A different configurable matching' in str(e):
+      res.violation('alias_reuse_collides_in_registry', '%r: configs %r: the second file binds the alias through its own '
+                    'import, yet %r' % (case, texts, e), list(case))
+    else:
+      res.violation('special:' + name, '%r: config\n%s\nraised %r' % (case, text, e), list(case))
     return
   res.outcome('special')
   if got != want:
@@ -603,7 +618,7 @@ def run_special(case, res):
     res.violation('special_roundtrip:' + name, '%r: config string\n%s\nconfigures %r, expected %r' %
                   (case, emitted, again, want), list(case))
     return
-  res.w('bound_name_equal_to_package' if 'load' not in text else 'wrapper_and_wrapped_distinct')
+  res.w('bound_name_equal_to_package' if 'load' not in ''.join(texts) else 'wrapper_and_wrapped_distinct')
 
 
 def gen(tier):
